@@ -4,6 +4,7 @@ import (
 	"errors"
 	"fmt"
 	"reflect"
+	"regexp"
 	"sort"
 	"strings"
 
@@ -48,6 +49,38 @@ var foreignNames = []string{"", " ", "add", "ADD", "Add ", " Add", "Add\x00", "R
 	"Tile", "Split", "Resize", "GlobalAveragePool", "Loop", "If", "Scan", "ArgMin", "Lstm", "lstm", "Gru", "Rnn", "MatMulInteger", "Gemm13",
 	"ConstantOfshape", "Constant_", "com.microsoft.Gelu", "ai.onnx.Add", "Add:13", "Conv2D", "QLinearConv", "é", "Ａdd", "Softmax\n",
 	"Top%", "Foo%vBar", "%s", "%w", "Scale%dx", "%", "Relu%!", "Add%w"}
+
+// laterOnnxOps are the foreign names that ARE operators of ONNX opset 13: a library that
+// has grown since may implement them. Such a name may resolve - to an operator of its own
+// (a Go type none of the 55 known names resolves to), never to one of the known operators
+// ("substituting another operator"). The names then belong to the implemented set and are
+// no longer "any other name".
+var laterOnnxOps = map[string]bool{"Pow": true, "MaxPool": true, "AveragePool": true, "Clip": true, "LeakyRelu": true, "BatchNormalization": true,
+	"Sqrt": true, "Exp": true, "Log": true, "Neg": true, "Min": true, "Max": true, "Sum": true, "ReduceSum": true, "ReduceMean": true, "Where": true,
+	"Identity": true, "Dropout": true, "Pad": true, "Tile": true, "Split": true, "Resize": true, "GlobalAveragePool": true, "Loop": true, "If": true,
+	"Scan": true, "ArgMin": true, "MatMulInteger": true, "QLinearConv": true}
+
+// implementedSince reports whether the foreign name has become an operator of its own.
+func implementedSince(name string) bool {
+	if !laterOnnxOps[name] {
+		return false
+	}
+	var op ops.Operator
+	var err error
+	o := mon.Capture(nil, func() ([]tensor.Tensor, error) { op, err = opset13.GetOperator(name); return nil, nil })
+	if o.Kind == mon.Panic || err != nil || op == nil {
+		return false
+	}
+	t := reflect.TypeOf(op)
+	for _, known := range c15Names {
+		if k, kerr := opset13.GetOperator(known); kerr == nil && k != nil && reflect.TypeOf(k) == t {
+			return false
+		}
+	}
+	return true
+}
+
+var addrPattern = regexp.MustCompile(`0x[0-9a-f]{6,}`)
 
 // goNativeDtypes are gorgonia element types that no ONNX type maps to; no gate
 // may let them through (ops.AllTypes lists the ONNX types only).
@@ -181,6 +214,16 @@ func c15Gate(c *Ctx, gc gateCase) error {
 	if err != nil || op == nil {
 		c.Violation("registry:"+gc.op+":does-not-resolve", "GetOperator(%q) = %v, %v", gc.op, op, err)
 		return nil
+	}
+	if (c.Idx/2)%2 == 1 {
+		// the instance has been initialised with the attributes of some valid node of this
+		// operator (any Cast target, any axis, ...): what the gate lets through depends on the
+		// operator and the position only
+		if req, _, ok := SampleValidReq(c.R, gc.op, true); ok {
+			node := nodeFor(req)
+			_ = mon.Capture(nil, func() ([]tensor.Tensor, error) { return nil, op.Init(node) })
+			c.Count("gate:instance-initialised-with-attributes", 1)
+		}
 	}
 	ar := onnxArity[gc.op]
 	min, max := op.GetMinInputs(), op.GetMaxInputs()
@@ -376,6 +419,11 @@ func c15RegistryCase(c *Ctx, k int) {
 				return
 			}
 		}
+		if implementedSince(name) {
+			c.Skip("the name has become an operator of its own")
+			c.Count("foreign-names-implemented-since", 1)
+			return
+		}
 		c.SetCase("registry lookup of foreign name %q", name)
 		c.Nontrivial("foreign|" + name)
 		var op ops.Operator
@@ -482,7 +530,10 @@ func c15AbsentAtModelLevel(c *Ctx) {
 // attribute variants of the instance that is used in between.
 func c15Independence(c *Ctx, name string) {
 	c.Nontrivial("independence|" + name)
-	render := func(op ops.Operator) string { return fmt.Sprintf("%T %+v", op, op) }
+	// (addresses of pointer-typed fields differ between instances by nature: only nil / non-nil is compared)
+	render := func(op ops.Operator) string {
+		return addrPattern.ReplaceAllString(fmt.Sprintf("%T %+v", op, op), "0xADDR")
+	}
 	fresh1, err := opset13.GetOperator(name)
 	if err != nil {
 		c.Violation("registry:"+name+":does-not-resolve", "%v", err)
@@ -558,6 +609,10 @@ func c15Independence(c *Ctx, name string) {
 // whatever its output list looks like (named, unused, empty, only omitted "").
 func c15ForeignModel(c *Ctx, name string) {
 	r := c.R
+	if implementedSince(name) {
+		c.Skip("the name has become an operator of its own")
+		return
+	}
 	x := r.Tensor(ref.F32, []int{2, 3}, gen.FillSmall, 4)
 	relu := func(in, out string) mon.GNode {
 		return mon.GNode{Op: "Relu", Inputs: []string{in}, Outputs: []string{out}}
